@@ -230,8 +230,8 @@ def explore(work, prop, clauses, modes, signature, nmax, seed, cap=None, p_fall=
         sigs[signature(c, pbyid[f['prog']], f['f']['rline'], f['f']['parked'])].append((f['prog'], mode_name(f['mode']), f['f']))
     if prop == 'C05':
         for d in decls:
-            e = {p['id']: p for p in d['providers']}
-            zia = [p for p in ds.needed(d) if e[p]['async'] and not e[p]['requires']]
+            e = {p['id']: p for p in ds.eff_providers(d)}
+            zia = [p for p in ds.needed(d) if e[p]['kind'] == 'fn' and e[p]['async'] and not e[p]['requires']]
             if len(zia) >= 2 and d['id'] not in witness:
                 sigs['C05.overlap'].append((d['id'], 'none', {}))
     dropped = [p['decl'] for p in progs if p.get('dropped')]
